@@ -94,7 +94,8 @@ def run(name, tier='quick'):
             break
     print(res, name, prop, tier)
     print(detail or p.stdout[-600:])
-    meta.setdefault('detection', {})[tier] = dict(result=res, detail=detail[:400])
+    key = tier if not os.environ.get('VERIF_SEED') else '%s_seed_%s' % (tier, os.environ['VERIF_SEED'])
+    meta.setdefault('detection', {})[key] = dict(result=res, detail=detail[:400])
     json.dump(meta, open(os.path.join(dst, 'meta.json'), 'w'), indent=1)
     return 0 if res == 'CAUGHT' else 1
 
